@@ -284,6 +284,35 @@ fn interop_scripted<V: Fv, R: RefImpl>(seed: u64, tries: usize, heavy: &mut Shar
     light.emit(cross("ref-verifies-our-scripted-signatures", V::N, fails == 0, &format!("{} of {} rejected ({} exact fits)", fails, sent, tight)));
 }
 
+/// Keys with a coefficient of F or G exactly at +-127 (what the other side may legitimately produce): decoded here, imported by
+/// the reference, signatures cross-verified.
+fn interop_edge_keys<V: Fv, R: RefImpl>(seed: u64, heavy: &mut Shards, light: &mut Shards) {
+    for (tag, b) in crate::d_keys::edge_valid_b0s::<V>(seed) {
+        let sk = V::sk_from_b0(b);
+        let pk = V::pk_from_sk(&sk);
+        let (skb, pkb) = (V::sk_to_bytes(&sk), V::pk_to_bytes(&pk));
+        let msg = tag.clone().into_bytes();
+        let ours = match guarded(|| V::sk_from_bytes(&skb)) {
+            Outcome::Ret(Ok(k)) => Some(k),
+            _ => None,
+        };
+        light.emit(cross("we-decode-edge-valid-sk", V::N, ours.is_some(), &tag));
+        if let Some(k) = &ours {
+            let sig = V::sig_to_bytes(&V::sign(&msg, k));
+            light.emit(cross("ref-verifies-our-signature-under-edge-key", V::N, R::verify(&msg, &to_ref_sig(&sig), &pkb), &tag));
+        }
+        match R::sign(&msg, &skb) {
+            Some(rsig) => {
+                let o = from_ref_sig::<V>(&rsig);
+                let v = V::sig_from_bytes(&o).map(|s| V::verify(&msg, &s, &pk)).unwrap_or(false);
+                light.emit(cross("we-verify-ref-signature-under-edge-key", V::N, v, &tag));
+                heavy.emit(honest_event::<V>(&msg, &o, &pkb, "ref-edge-key"));
+            }
+            None => light.emit(cross("ref-signs-with-edge-valid-sk", V::N, false, &tag)),
+        }
+    }
+}
+
 pub fn c16(args: &Args) {
     let seed = args.num("--seed", 1);
     let thorough = args.thorough();
@@ -292,6 +321,8 @@ pub fn c16(args: &Args) {
     let mut light = Shards::create(&dir, "cross", 1);
     interop_variant::<V512, Ref512>(seed, if thorough { 10 } else { 2 }, if thorough { 10 } else { 3 }, &mut heavy, &mut light);
     interop_variant::<V1024, Ref1024>(seed, if thorough { 4 } else { 1 }, if thorough { 8 } else { 3 }, &mut heavy, &mut light);
+    interop_edge_keys::<V512, Ref512>(seed, &mut heavy, &mut light);
+    interop_edge_keys::<V1024, Ref1024>(seed, &mut heavy, &mut light);
     interop_corpus_keys::<V512, Ref512>(if thorough { 8 } else { 4 }, &mut heavy, &mut light);
     interop_corpus_keys::<V1024, Ref1024>(if thorough { 8 } else { 2 }, &mut heavy, &mut light);
     interop_scripted::<V512, Ref512>(seed, if thorough { 12000 } else { 1500 }, &mut heavy, &mut light);
